@@ -1,5 +1,6 @@
 import BufModel.Path
 import BufModel.Bucket
+import BufModel.Faults
 /-
   BufModel.Cache — the module-data cache entry of one module key
   (bufmodulestore.moduleDataStore, directory layout and tar layout; bufmodule.moduleData's
@@ -8,7 +9,8 @@ import BufModel.Bucket
   An entry is a bucket of entry-relative paths: `module.yaml` (the commit marker),
   `files/<module file>`, `v1_buf_yaml/<name>`, `v1_buf_lock/<name>`.  Marker bytes are
   abstracted to a token: "M:canonical" (valid, the deps the key's honest content has),
-  "M:otherdeps" (valid YAML, valid marker, different deps), anything else = invalid.
+  "M:otherdeps" (valid YAML, valid marker, different deps), "M:unparsable" (not YAML at all: the
+  writer returns the YAML error), anything else = parses but `isValid()` rejects it.
   The digest is modelled as a collision-free function of (module-file set, deps): two digests
   are equal iff the module-file sets and the dep lists are equal — collision resistance of
   SHAKE256 is the stated assumption (DESIGN.md §3); only b5 keys are modelled.
@@ -75,15 +77,31 @@ def loadTar (exp : Expected) (tarObj : Option (Option Mem)) : LoadResult × Opti
   | some none => (.miss, none)
   | some (some e) => (load exp e, some (some e))
 
-/-! ### The writer as a step machine (directory layout), for all interleavings -/
+/-! ### The writer as a step machine (directory layout), for all interleavings
 
-/-- Everything a store writes before the marker, in order: files then side files. -/
+  `putModuleData` (module_data_store.go): shared lock + read marker, exclusive lock + re-read
+  marker, `storage.Copy` of the files (one job per file through `thread.Parallelize`: the
+  files are written IN PARALLEL, in any order, several in flight at once, each one truncated by
+  its Put and growing with every Write), the side files, then the ATOMIC put of `module.yaml`.
+  The machine over-approximates the order: any not-yet-written payload object (file or side
+  file) may be started at any time while the writer holds the lock. -/
+
+/-- Everything a store writes before the marker: files then side files. -/
 def Expected.payload (exp : Expected) : List (Str × Content) :=
   exp.files.map (fun f => (filesPrefix ++ f.1, f.2)) ++ exp.sides
 
+/-- A `module.yaml` that is not even YAML (`encoding.UnmarshalYAMLNonStrict` fails).  Any other
+    token that is not `markerValid` stands for a marker that parses but `isValid()` rejects. -/
+def markerUnparsable : Content := "M:unparsable"
+
+/-- The first `k` characters of a content: what a torn (half-written) file holds. -/
+def takeStr (k : Nat) (c : Content) : Content := String.ofList (c.toList.take k)
+
 inductive WPc where
   | start                    -- not holding the lock
-  | writing (i : Nat) (torn : Bool)   -- holds the exclusive lock; payload[0..i) written; torn: payload[i] truncated
+  /-- holds the exclusive lock; `done`: indices into `exp.payload` written in full and closed;
+      `inflight`: (index, number of characters written so far) of the objects being written -/
+  | writing (done : List Nat) (inflight : List (Nat × Nat))
   | finished (ok : Bool)     -- returned (nil / error); lock released
   | crashed                  -- process died; lock released
   deriving DecidableEq, Repr
@@ -94,11 +112,12 @@ structure Sys where
   writers : List WPc
 
 inductive Act where
-  | acquire (w : Nat)        -- Lock + re-read marker
-  | truncate (w : Nat)       -- os.Create of payload[i]
-  | fill (w : Nat)           -- writes + close of payload[i] succeed
-  | fail (w : Nat)           -- any Put/Write/Close of payload[i] fails: the store returns an error
-  | commit (w : Nat)         -- atomic put of the marker
+  | acquire (w : Nat)        -- Lock + re-read marker (valid → return nil; unparsable → return the YAML error)
+  | truncate (w i : Nat)     -- Put (os.Create) of payload[i]: the object exists and is empty
+  | grow (w i k : Nat)       -- a Write: payload[i] now holds the first k characters
+  | fill (w i : Nat)         -- the remaining writes and the Close of payload[i] succeed
+  | fail (w : Nat)           -- some Put/Write/Close failed: the store returns an error (any time while writing)
+  | commit (w : Nat)         -- atomic put of the marker (only when everything is done, nothing in flight)
   | commitFail (w : Nat)     -- the atomic marker put fails: nothing visible, error
   | crash (w : Nat)          -- SIGKILL / power cut of the process
   deriving Repr
@@ -110,7 +129,23 @@ def markerOK (entry : Mem) : Bool :=
   | some tok => markerValid tok
   | none => false
 
+/-- The entry carries a `module.yaml` that does not parse. -/
+def markerGarbled (entry : Mem) : Bool :=
+  match entry.find markerPath with
+  | some tok => tok = markerUnparsable
+  | none => false
+
 def putObj (m : Mem) (p : Str) (c : Content) : Mem := (p, c) :: m.erase p
+
+/-- How far the in-flight object `i` has been written. -/
+def inflK : List (Nat × Nat) → Nat → Option Nat
+  | [], _ => none
+  | (j, k) :: rest, i => if j = i then some k else inflK rest i
+
+def dropIdx (infl : List (Nat × Nat)) (i : Nat) : List (Nat × Nat) := infl.filter fun jk => jk.1 ≠ i
+
+/-- Every payload index below `n` is done. -/
+def allDone (n : Nat) (done : List Nat) : Bool := (List.range n).all fun i => done.contains i
 
 /-- One step; actions that are not enabled leave the system unchanged. -/
 def step (exp : Expected) (s : Sys) : Act → Sys
@@ -118,38 +153,54 @@ def step (exp : Expected) (s : Sys) : Act → Sys
     match s.writers[w]?, s.lock with
     | some .start, none =>
       if markerOK s.entry then { s with writers := setPc s.writers w (.finished true) }
-      else { s with lock := some w, writers := setPc s.writers w (.writing 0 false) }
+      else if markerGarbled s.entry then { s with writers := setPc s.writers w (.finished false) }
+      else { s with lock := some w, writers := setPc s.writers w (.writing [] []) }
     | _, _ => s
-  | .truncate w =>
+  | .truncate w i =>
     match s.writers[w]? with
-    | some (.writing i false) =>
+    | some (.writing done infl) =>
       (match exp.payload[i]? with
-        | some (p, _) => { s with entry := putObj s.entry p "", writers := setPc s.writers w (.writing i true) }
+        | some (p, _) =>
+          if done.contains i || (inflK infl i).isSome then s
+          else { s with entry := putObj s.entry p "", writers := setPc s.writers w (.writing done ((i, 0) :: infl)) }
         | none => s)
     | _ => s
-  | .fill w =>
+  | .grow w i k =>
     match s.writers[w]? with
-    | some (.writing i true) =>
-      (match exp.payload[i]? with
-        | some (p, c) => { s with entry := putObj s.entry p c, writers := setPc s.writers w (.writing (i + 1) false) }
-        | none => s)
+    | some (.writing done infl) =>
+      (match exp.payload[i]?, inflK infl i with
+        | some (p, c), some k0 =>
+          if k0 ≤ k ∧ k ≤ c.length then
+            { s with entry := putObj s.entry p (takeStr k c),
+                     writers := setPc s.writers w (.writing done ((i, k) :: dropIdx infl i)) }
+          else s
+        | _, _ => s)
+    | _ => s
+  | .fill w i =>
+    match s.writers[w]? with
+    | some (.writing done infl) =>
+      (match exp.payload[i]?, inflK infl i with
+        | some (p, c), some _ =>
+          { s with entry := putObj s.entry p c, writers := setPc s.writers w (.writing (i :: done) (dropIdx infl i)) }
+        | _, _ => s)
     | _ => s
   | .fail w =>
     match s.writers[w]? with
-    | some (.writing i _) =>
-      if i < exp.payload.length then { s with lock := none, writers := setPc s.writers w (.finished false) } else s
+    | some (.writing _ _) => { s with lock := none, writers := setPc s.writers w (.finished false) }
     | _ => s
   | .commit w =>
     match s.writers[w]? with
-    | some (.writing i false) =>
-      if i = exp.payload.length then
+    | some (.writing done infl) =>
+      if infl.isEmpty && allDone exp.payload.length done then
         { entry := putObj s.entry markerPath markerCanonical, lock := none, writers := setPc s.writers w (.finished true) }
       else s
     | _ => s
   | .commitFail w =>
     match s.writers[w]? with
-    | some (.writing i false) =>
-      if i = exp.payload.length then { s with lock := none, writers := setPc s.writers w (.finished false) } else s
+    | some (.writing done infl) =>
+      if infl.isEmpty && allDone exp.payload.length done then
+        { s with lock := none, writers := setPc s.writers w (.finished false) }
+      else s
     | _ => s
   | .crash w =>
     match s.writers[w]? with
@@ -158,6 +209,67 @@ def step (exp : Expected) (s : Sys) : Act → Sys
     | _ => s
 
 def runActs (exp : Expected) (s : Sys) (acts : List Act) : Sys := acts.foldl (step exp) s
+
+/-! ### The write phase as a function of a fault schedule (on top of the C15 model)
+
+  What `putModuleData` does once it holds the lock, with the error plumbing of the storage
+  helpers (BufModel.Faults): `storage.Copy` of the files (`copyAll`: every job runs, the result
+  is an error iff some job failed), `storage.PutPath` of each side file (the first failure
+  returns), `storage.PutPath(…, PutWithAtomic())` of the marker (`atomicRun`).  The store
+  returns at the first phase that reports an error — the marker is put only when every earlier
+  phase reported success. -/
+open BufModel.Faults in
+/-- The side files, one `PutPath` after the other; the first error returns. -/
+def putSides (fx : Facts) (s : Sched) (d : Dest) : List (Str × List Content) → Bool × Dest
+  | [] => (false, d)
+  | (p, cs) :: rest =>
+    let r := putPath fx s d p cs
+    if r.1 then (true, r.2) else putSides fx s r.2 rest
+
+open BufModel.Faults in
+/-- Returns (error?, destination).  `markerChunks`/`markerFailAt`: the atomic put of the marker
+    and the index of its failing step (C15 `atomicRun`). -/
+def storeRun (fx : Facts) (s : Sched) (markerChunks : List Content) (markerFailAt : Option Nat) (d : Dest)
+    (files sides : List (Str × List Content)) : Bool × Dest :=
+  let r := copyAll fx s d files
+  if r.1 then (true, r.2.1)
+  else
+    let r2 := putSides fx s r.2.1 sides
+    if r2.1 then (true, r2.2)
+    else
+      let m := atomicRun (r2.2.mem.find markerPath) markerChunks markerFailAt
+      let mem' := match m.2.final with
+        | some c => putObj r2.2.mem markerPath c
+        | none => r2.2.mem.erase markerPath
+      (m.1, { r2.2 with mem := mem' })
+
+/-- The jobs of the file phase / the side-file phase for a chunking of the contents. -/
+def fileJobs (exp : Expected) (chunk : Content → List Content) : List (Str × List Content) :=
+  exp.files.map fun f => (filesPrefix ++ f.1, chunk f.2)
+
+def sideJobs (exp : Expected) (chunk : Content → List Content) : List (Str × List Content) :=
+  exp.sides.map fun f => (f.1, chunk f.2)
+
+/-! ### Tar layout writer
+
+  `putModuleData` with the tar option writes the very same objects into a private memory bucket
+  (nobody can see it), and the callback serialises that bucket into ONE object put with
+  `PutWithAtomic` (C15 `atomicRun` / `atomicPrefix`).  There is no lock and no marker re-check:
+  the archive is simply replaced.  The tar codec is a library parameter (`decode`). -/
+
+/-- The entry that is serialised. -/
+def tarEntry (exp : Expected) : Mem := (markerPath, markerCanonical) :: exp.payload
+
+/-- A tar store whose `failAt`-th step fails (none: fault-free): (error?, directory). -/
+def tarStore (old : Option Content) (chunks : List Content) (failAt : Option Nat) : Bool × Faults.ADir :=
+  Faults.atomicRun old chunks failAt
+
+/-- The directory a reader or a crash survivor sees after `j` steps of a tar store. -/
+def tarCrash (old : Option Content) (chunks : List Content) (j : Nat) : Faults.ADir :=
+  Faults.atomicPrefix old chunks j
+
+/-- What the reader decodes from the object at the tar path. -/
+def tarView (decode : Content → Option Mem) (d : Faults.ADir) : Option (Option Mem) := d.final.map decode
 
 /-- baseProvider.getValuesForKeys for one key: store miss → delegate → put → re-get; a key
     still missing after the put is an error, never a silent absence. -/
